@@ -8,7 +8,7 @@ import itertools
 import alg
 from alg import Expr, ZERO, ONE, as_expr
 from front import AnalysisError, dotted_name
-from interp import Interp, Opaque, Tup, PyList, Unknown, Arr, explore, FuncRef, RangeV
+from interp import Interp, Opaque, Tup, PyList, Unknown, Arr, SymArr, explore, FuncRef, RangeV
 from report import Result, Ob, eq_ob, req_ob
 import config_model as CM
 
@@ -382,25 +382,70 @@ def _all_functions(mod):
 
 
 def load_config_obligation(P):
+    """R-YAML by interpretation: load_config is run with the file and the YAML parser replaced by recorders.  The parsed
+    document is a tree of recording nodes (every .get / [key] hands out a child node, isinstance(node, dict) and
+    truthiness are undetermined-but-consistent); the rule is that parse_config_dict receives exactly the object the safe
+    loader returned and that nothing is stored into the document or any node below it on the way."""
     m = P.module(CM.MOD)
     site = "src/bldfm/config_parser.py::load_config"
     fn = m.functions.get("load_config")
     if fn is None:
         return [req_ob("R-YAML", site, "load_config exists", None)]
-    raw_names = set()
-    ok_load = False
-    for n in ast.walk(fn):
-        if isinstance(n, ast.Assign) and isinstance(n.value, ast.Call) and (dotted_name(n.value.func) or "").endswith("safe_load"):
-            for t in n.targets:
-                if isinstance(t, ast.Name):
-                    raw_names.add(t.id)
-            ok_load = True
-    rets = [n for n in ast.walk(fn) if isinstance(n, ast.Return) and n.value is not None]
-    ok_ret = bool(rets) and all(isinstance(r.value, ast.Call) and dotted_name(r.value.func) == "parse_config_dict" and len(r.value.args) == 1
-                                and isinstance(r.value.args[0], ast.Name) and r.value.args[0].id in raw_names and not r.value.keywords for r in rets)
-    mutated = [n for n in ast.walk(fn) if isinstance(n, (ast.Subscript,)) and isinstance(n.ctx, ast.Store) and isinstance(n.value, ast.Name) and n.value.id in raw_names]
-    return [req_ob("R-YAML", site, "a YAML file is parsed with yaml.safe_load", ok_load),
-            req_ob("R-YAML", site, "load_config returns parse_config_dict of exactly the loaded mapping", ok_ret and not mutated)]
+    loads, parsed = [], []
+    nodes = []
+
+    def node(path):
+        o = Opaque("yamldoc" + path, {"is_dict": True, "doc_path": path})
+        o.attrs["getitem"] = lambda key, o=o, path=path: child(path, key)
+        nodes.append(o)
+        return o
+
+    def child(path, key):
+        k = key if isinstance(key, str) else "?"
+        return node("%s[%s]" % (path, k))
+
+    def safe_load(I, args, kwargs, node_):
+        loads.append(("safe_load", args))
+        return node("")
+
+    def unsafe_load(I, args, kwargs, node_):
+        loads.append(("unsafe", args))
+        return node("")
+
+    def get(I, args, kwargs, node_):
+        b = I.cur_callee.bound
+        return child(b.attrs["doc_path"], args[0] if args else None)
+
+    def parse(I, args, kwargs, node_):
+        parsed.append((args, kwargs))
+        return Opaque("BLDFMConfig")
+
+    stubs = {"yaml.safe_load": safe_load, "yaml.load": unsafe_load, "yaml.full_load": unsafe_load, "yaml.unsafe_load": unsafe_load,
+             "bldfm.config_parser.parse_config_dict": parse, "open": lambda I, a, k, n: Opaque("file"), "pathlib.Path": lambda I, a, k, n: Opaque("Path")}
+    for pth in ("", "[met]", "[domain]", "[solver]", "[towers]", "[output]", "[parallel]", "[met][timestamps]"):
+        stubs["yamldoc%s.get" % pth] = get
+    try:
+        res = CM.run_paths(P, CM.MOD, "load_config", [alg.sym("config_path")], {}, stubs=stubs, max_paths=64)
+    except AnalysisError as e:
+        return [req_ob("R-YAML", site, "load_config is interpretable", None, detail=str(e))]
+    rets = [r for r in res if r.kind == "return"]
+    others = [r for r in res if r.kind != "return" and not (r.kind == "raise" and "FileNotFoundError" in (r.raise_desc or ""))]
+    obs = [req_ob("R-YAML", site, "load_config returns a configuration for an existing file (a missing file is rejected)", bool(rets) and not others, detail=str([(r.kind, r.raise_desc) for r in res])[:200])]
+    obs.append(req_ob("R-YAML", site, "a YAML file is parsed with yaml.safe_load", bool(loads) and all(k == "safe_load" for k, _ in loads), detail=str([k for k, _ in loads])))
+    ok_arg = bool(parsed) and all(len(a) == 1 and not kw and isinstance(a[0], Opaque) and a[0].attrs.get("doc_path") == "" for a, kw in parsed)
+    obs.append(req_ob("R-YAML", site, "parse_config_dict receives exactly the document the loader returned", ok_arg, detail=None if ok_arg else repr([a for a, _ in parsed])[:200]))
+    okv = bool(rets) and all(isinstance(r.value, Opaque) and r.value.name == "BLDFMConfig" for r in rets)
+    obs.append(req_ob("R-YAML", site, "load_config returns what parse_config_dict returns", okv))
+    stores = []
+    for r in res:
+        for e in r.events:
+            if e[0] == "item-store":
+                stores.append((e[1], e[2][0], e[2][1]))
+            if e[0] == "opaque-call" and isinstance(e[2], tuple) and str(e[2][0]).startswith("yamldoc") and e[2][1] in ("update", "pop", "setdefault", "clear", "__setitem__", "popitem", "append", "extend", "insert", "remove"):
+                stores.append((e[1], e[2][0], e[2][1]))
+    obs.append(req_ob("R-YAML", site, "nothing is stored into the loaded document before it is parsed (a file and the equivalent dictionary give the same configuration)", not stores,
+                      detail="; ".join("%s: %s[%r]" % (w, b, k) for w, b, k in stores[:3]) or None))
+    return obs
 
 
 def interface_memo_obligations(P):
@@ -712,16 +757,27 @@ def _single(P, modname, fname, args, kwargs=None):
 
 def geo_forward(P, lat, lon, rlat, rlon):
     v = _single(P, CM.MOD, "latlon_to_xy", [lat, lon, rlat, rlon]).value
-    if not (isinstance(v, Tup) and len(v.items) == 2 and all(isinstance(i, Expr) for i in v.items)):
+    out = _scalars(v)
+    if out is None:
         raise AnalysisError("latlon_to_xy does not return a pair of scalars: %r" % (v,))
-    return v.items
+    return out
+
+
+def _scalars(v):
+    """a pair of scalars, 0-d arrays counted as scalars"""
+    if isinstance(v, Tup) and len(v.items) == 2:
+        out = [i.val if isinstance(i, Arr) and i.ndim == 0 else i for i in v.items]
+        if all(isinstance(i, Expr) for i in out):
+            return out
+    return None
 
 
 def geo_inverse(P, x, y, rlat, rlon):
     v = _single(P, "bldfm.plotting._geo", "xy_to_latlon", [x, y, rlat, rlon]).value
-    if not (isinstance(v, Tup) and len(v.items) == 2 and all(isinstance(i, Expr) for i in v.items)):
+    out = _scalars(v)
+    if out is None:
         raise AnalysisError("xy_to_latlon does not return a pair of scalars: %r" % (v,))
-    return v.items
+    return out
 
 
 def geo_obligations(P, rule="R-GEO"):
@@ -756,6 +812,27 @@ def geo_obligations(P, rule="R-GEO"):
     x3, y3 = geo_forward(P, la3, lo3, rlat, rlon)
     obs.append(eq_ob(rule, s_f, "latlon_to_xy(xy_to_latlon(x, y)) returns x", x3, xs, "mutual inverses"))
     obs.append(eq_ob(rule, s_f, "latlon_to_xy(xy_to_latlon(x, y)) returns y", y3, ys, "mutual inverses"))
+    # arrays: the inverse transform (used on whole footprint grids) is the scalar map applied element by element
+    xa_, ya_ = xs.top_atoms().pop(), ys.top_atoms().pop()
+    for nd in (1, 2):
+        shape = tuple(alg.sym("n%d" % k, pos=True, integer=True) for k in range(nd))
+        X, Y = SymArr("x_arr", nd, shape=shape), SymArr("y_arr", nd, shape=shape)
+        res = CM.run_paths(P, "bldfm.plotting._geo", "xy_to_latlon", [X, Y, rlat, rlon], {})
+        rets = [r for r in res if r.kind == "return"]
+        if not rets or len(rets) != len(res):
+            obs.append(req_ob(rule, s_g, "xy_to_latlon accepts %d-D arrays" % nd, False if res else None, detail=str([(r.kind, r.raise_desc) for r in res])[:200]))
+            continue
+        for r in rets:
+            v = r.value
+            ok = isinstance(v, Tup) and len(v.items) == 2 and all(isinstance(i, Arr) for i in v.items)
+            if not ok:
+                obs.append(req_ob(rule, s_g, "xy_to_latlon of %d-D arrays returns two arrays" % nd, None, detail=repr(v)[:200]))
+                continue
+            for nm, got, want in (("latitude", v.items[0], la3), ("longitude", v.items[1], lo3)):
+                w = want.subs({xa_: X.val, ya_: Y.val})
+                obs.append(eq_ob(rule, s_g, "%s of a %d-D batch of points is the scalar formula applied to each point's own (x, y)" % (nm, nd), got.val, w, key={"ndim": nd, "out": nm}))
+                shp_ok = got.shape is not None and len(got.shape) == nd and all(a.eq(b) for a, b in zip(got.shape, shape))
+                obs.append(req_ob(rule, s_g, "%s of a %d-D batch has the shape of the batch" % (nm, nd), shp_ok, detail=repr(got.shape)))
     return obs
 
 
@@ -781,6 +858,14 @@ def tower_xy_obligations(P, rule="R-GEO"):
         # a fresh configuration per explored path; the towers' previous x, y are arbitrary (tower objects may have been
         # through another configuration before)
         cfg = CM.make_obj(P, "BLDFMConfig", "config", {})
+        for t in cfg.attrs["towers"].items:
+            t.attrs["__given__"] = (t.attrs["lat"], t.attrs["lon"])  # the position as configured
+        # the towers' own construction hook (if the class has one) runs before the configuration's
+        tcls = mod.classes.get("TowerConfig")
+        tpi = [n for n in (tcls.body if tcls is not None else []) if isinstance(n, ast.FunctionDef) and n.name == "__post_init__"]
+        if tpi:
+            for t in cfg.attrs["towers"].items:
+                it.run_function(mod, tpi[0], [t], {})
         it.run_function(mod, fn, [cfg], {})
         return cfg
 
@@ -792,7 +877,8 @@ def tower_xy_obligations(P, rule="R-GEO"):
         dom = cfg.attrs["domain"].attrs
         tag = "" if len(rets) == 1 else " (path %d of %d: %s)" % (pi + 1, len(rets), "; ".join("%s=%s" % (d, b) for d, b in r.path)[:120])
         for k, t in enumerate(cfg.attrs["towers"].items):
-            ex, ey = geo_forward(P, t.attrs["lat"], t.attrs["lon"], dom["ref_lat"], dom["ref_lon"])
+            glat, glon = t.attrs.get("__given__", (t.attrs["lat"], t.attrs["lon"]))
+            ex, ey = geo_forward(P, glat, glon, dom["ref_lat"], dom["ref_lon"])
             obs.append(eq_ob(rule, site, "tower %d: x filled from (ref_lat, ref_lon) at construction%s" % (k, tag), t.attrs.get("x"), ex))
             obs.append(eq_ob(rule, site, "tower %d: y filled from (ref_lat, ref_lon) at construction%s" % (k, tag), t.attrs.get("y"), ey))
     return obs
